@@ -39,6 +39,7 @@ type schedule struct {
 	Script [][]op          `json:"script"`
 	Steps  [][]interface{} `json:"steps"`
 	Dead   bool            `json:"dead"`
+	Mode   string          `json:"mode"` // "" = alternate; "lazy" / "eager" = placement of the gates around the selects
 }
 
 type input struct {
@@ -269,6 +270,7 @@ type item struct {
 	key  int
 	conn net.Conn // stream client side
 	ok   bool
+	pre  []byte // bytes the early look at the client side has already read
 }
 
 type addrObs struct {
@@ -630,6 +632,40 @@ func (sc *scenario) settleDeliveries(d time.Duration) {
 	}
 }
 
+// clientView: the client side of every stream connection that no accept call has returned so far, looked at BEFORE the
+// cleanup closes the handles that are still open.  A connection on which the client has received nothing and now sees the
+// end of the stream or a reset was closed by the server itself (a connection that a call returned is answered with "H<h>"
+// by the driver before it is closed).  Whether the server was entitled to do so is the trace specification's business.
+func (sc *scenario) clientView() {
+	sc.mu.Lock()
+	var look []*item
+	for _, it := range sc.items {
+		if it.ok && it.conn != nil && sc.kinds[it.key] == "s" && !sc.got[it.id] {
+			look = append(look, it)
+		}
+	}
+	sc.mu.Unlock()
+	for _, it := range look {
+		it.conn.SetReadDeadline(time.Now().Add(3 * time.Millisecond))
+		buf := make([]byte, 64)
+		n, err := it.conn.Read(buf)
+		it.pre = append(it.pre, buf[:n]...)
+		it.conn.SetReadDeadline(time.Time{})
+		if n > 0 || err == nil {
+			continue
+		}
+		var ne net.Error
+		if errors.As(err, &ne) && ne.Timeout() {
+			continue // open and silent: queued, or held by the accept goroutine
+		}
+		what := "reset"
+		if errors.Is(err, io.EOF) {
+			what = "closed"
+		}
+		sc.emit(map[string]any{"ev": "ClientSaw", "item": it.id, "what": what, "err": err.Error()})
+	}
+}
+
 func (sc *scenario) threadDone(t int) bool {
 	sc.mu.Lock()
 	defer sc.mu.Unlock()
@@ -696,6 +732,7 @@ func (sc *scenario) finish(nThreads int, wg *sync.WaitGroup, watchdog time.Durat
 		// "never lost while some handle keeps accepting": give every connection/datagram that nobody has received yet
 		// ample time to reach one of the calls that are still waiting, then mark the instant for the trace spec
 		sc.settleDeliveries(3 * time.Second)
+		sc.clientView()
 		sc.emit(map[string]any{"ev": "CleanupStart"})
 		cdeadline := time.Now().Add(2 * watchdog)
 		for {
@@ -800,6 +837,7 @@ func (sc *scenario) finish(nThreads int, wg *sync.WaitGroup, watchdog time.Durat
 		}
 		it.conn.SetReadDeadline(time.Now().Add(1500 * time.Millisecond))
 		b, err := io.ReadAll(it.conn)
+		b = append(it.pre, b...)
 		fate := "closed"
 		by := 0
 		if len(b) > 1 && b[0] == 'H' {
@@ -887,6 +925,9 @@ func (s *sched) releaseListenerGoroutines() {
 // Both are schedules of the same model; they differ in which real interleavings of select branches they can produce.
 func runSchedule(tr *hx.Trace, idx int, kinds map[int]string, sd schedule, watchdog time.Duration, stepTimeout time.Duration) {
 	eager := idx%2 == 0
+	if sd.Mode != "" {
+		eager = sd.Mode == "eager"
+	}
 	leaks0, _ := countLeaks()
 	sc := newScenario(tr, kinds)
 	s := newSched()
